@@ -1112,6 +1112,24 @@ class Folder:
             return frozenset(a[0])
         raise Refuse("set")
 
+    def c_dict(self, a, kw):
+        out = {}
+        if a:
+            src = a[0]
+            if isinstance(src, dict):
+                out.update(src)
+            elif isinstance(src, (list, tuple)) and all(isinstance(p, (list, tuple)) and len(p) == 2 for p in src):
+                for k_, v_ in src:
+                    try:
+                        hash(k_)
+                    except TypeError:
+                        raise Refuse("dict key")
+                    out[k_] = v_
+            else:
+                raise Refuse("dict() form")
+        out.update(kw)
+        return out
+
     def c_list(self, a, kw):
         return list(a[0]) if a else []
 
